@@ -102,7 +102,8 @@ def c09(ctx):
             else:
                 steps.append((l, None))
         r = lifecycle.replay(steps, rp['chans'], rp['reject'],
-                             win=rp.get('win', 0))
+                             win=rp.get('win', 0),
+                             prefix=rp.get('prefix', False))
         r['l1'] = [b for b in r['l1'] if not b.startswith('DataBeforeClose')]
         print('l1:', r['l1'], 'loop exceptions:', r['loop_exceptions'])
         ctx.count(('replay', 'script'))
